@@ -75,6 +75,7 @@ def mk(v):
     if t == "int": return int(v["v"])
     if t == "float": return float.fromhex(v["v"])
     if t == "s": return v["v"]
+    if t == "by": return bytes(v["v"])
     if t == "dict": return {k: mk(x) for k, x in v["v"].items()}
     raise ValueError(t)
 
@@ -203,7 +204,8 @@ def h5dump(fn):
             if isinstance(obj, h5py.Dataset):
                 val = obj[()]
                 if obj.dtype == object or h5py.check_string_dtype(obj.dtype) is not None:
-                    if obj.shape == (): out[name] = {"t": "by", "v": list(val)}
+                    if obj.shape == ():          # "by": UTF-8 character set (written from a str); "bya": ASCII (written from bytes)
+                        out[name] = {"t": "by" if h5py.check_string_dtype(obj.dtype).encoding == "utf-8" else "bya", "v": list(val)}
                     else: out[name] = {"t": "bytes", "d": [list(s) for s in val.tolist()]}
                 else:
                     out[name] = ob(numpy.asarray(val)); out[name].pop("sc", None)
@@ -289,6 +291,7 @@ def e_dset(v):
     if t in DT: return "(DArr %s %s %s)" % (DT[t], zl(v["sh"]), zl(_data(v)))
     if t == "bytes": return "(DStrs %s)" % E.lst(v["d"], zbytes)
     if t == "by": return "(DStr %s)" % zbytes(v["v"])
+    if t == "bya": return "(DBytes %s)" % zbytes(v["v"])
     raise ValueError("dataset of kind %r has no model counterpart" % t)
 def e_dump(d):
     return E.lst(sorted(d.items()), lambda kv: "(%s, %s)" % (zstr(kv[0]), "None" if kv[1] == "G" else "(Some %s)" % e_dset(kv[1])))
@@ -305,7 +308,7 @@ def emit_h5(case, out):
                                  "None" if "exc" in r else "(Some %s)" % e_obj(r, order))
     outs = E.lst(range(len(out["orig"])), so)
     g = case["group"]
-    return "agree_h5 true spec_%s %s %s [] %s %s" % (key, Z(nt), "None" if g is None else "(Some %s)" % zstr(g), steps, outs)
+    return "agree_h5 VCur spec_%s %s %s [] %s %s" % (key, Z(nt), "None" if g is None else "(Some %s)" % zstr(g), steps, outs)
 
 class _Heap:
     def __init__(self): self.cells = []
@@ -534,7 +537,8 @@ def g_hyper(rng, mode):
         if r < 0.35: d[k] = {"t": "float", "v": fhex(rng.choice(FLOATS))}
         elif r < 0.6: d[k] = {"t": "int", "v": rng.randint(-5, 1000)}
         elif r < 0.8: d[k] = g_f64(rng, [rng.randint(1, 3)])
-        elif r < 0.93: d[k] = {"t": "s", "v": rng.choice(["ridge", "bä", "x"])}
+        elif r < 0.9: d[k] = {"t": "s", "v": rng.choice(["ridge", "bä", "x", ""])}
+        elif r < 0.94: d[k] = {"t": "by", "v": rng.choice([[114, 97, 119], [255, 1], [195, 164]])}      # bytes stay bytes
         else: d[k] = None
     return {"t": "dict", "v": d}
 
@@ -671,27 +675,18 @@ def pred(case, out):
         if b not in seen: seen.append(b)
     return seen[:8]
 
-def _hyper_lossy(o):
+def _hyper_none(o):
     h = o.get("hyperparams")
-    return h is not None and any(v is None or v["t"] == "s" for v in h["v"].values())
-def _hyper_keys(o):
-    h = o.get("hyperparams")
-    return set() if h is None else {k for k, v in h["v"].items() if v is not None}
+    return h is not None and any(v is None for v in h["v"].values())
 
 def classify(case, out, clauses):
     if case["kind"] == "h5" and case["cls"] in ("ALGM", "ADLGM") and "exc" not in out:
-        only_h = all(("differs" in c and c.rstrip().endswith(" in hyperparams")) or "stale datasets" in c and all(x.startswith("hyperparams/") for x in c.split(": ")[-1].split(",")) for c in clauses)
+        # known: a hyper-parameter whose value is None cannot be stored and is dropped; accepted only when nothing but the
+        # hyper-parameters of an object with such an entry differs (stale members and str -> bytes are repaired: violations)
+        only_h = all("differs" in c and c.rstrip().endswith(" in hyperparams") for c in clauses)
         if clauses and only_h:
-            stale = False
-            for i in range(1, len(case["objs"])):
-                if any(_hyper_keys(case["objs"][j]) - _hyper_keys(case["objs"][i]) for j in range(i)): stale = True
-            if stale: return "C16-h5-stale-hyperparams"
-            if any(_hyper_lossy(o) for o in case["objs"]): return "C16-h5-hyperparams-lossy"
-    if case["kind"] == "wd" and clauses:
-        # known: nested dictionaries are never cleared
-        if not all(c.startswith("[wd-stale-nested]") for c in clauses): return None
-        if not any(v is not None and v["t"] == "dict" for d in case["dicts"] for v in d.values()): return None
-        return "C16-h5-stale-hyperparams"
+            steps = [int(c.split("(step ")[1].split(")")[0]) for c in clauses]
+            if all(_hyper_none(case["objs"][i]) for i in steps): return "C16-h5-hyperparams-none-dropped"
     if case["kind"] == "df" and clauses:
         tags = set()
         for c in clauses:
@@ -1169,16 +1164,18 @@ WD_KEYS = ["a", "b", "mat", "ü", "params", "taxa"]
 def gen_wd(rng):
     n = rng.randint(1, 4)
     dicts = []
-    is_dict = {k: rng.random() < 0.3 for k in WD_KEYS}            # a key is either always data or always a dictionary
+    is_dict = {k: rng.random() < 0.3 for k in WD_KEYS}            # a key is mostly data or mostly a dictionary ...
     for _ in range(n):
         d = {}
+        for k in WD_KEYS:                                         # ... but now and then a dictionary replaces data or the reverse
+            if rng.random() < 0.12: is_dict[k] = not is_dict[k]
         for k in rng.sample(WD_KEYS, rng.randint(1, 4)):
             r = rng.random()
             if r < 0.2: d[k] = None
             elif is_dict[k]:
                 sub = {}
                 for kk in rng.sample(["x", "y", "ζ"], rng.randint(0, 3)):
-                    sub[kk] = None if rng.random() < 0.25 else (g_f64(rng, [1]) if rng.random() < 0.5 else {"t": "int", "v": rng.randint(0, 5)})
+                    sub[kk] = None if rng.random() < 0.25 else rng.choice([lambda: g_f64(rng, [1]), lambda: {"t": "int", "v": rng.randint(0, 5)}, lambda: {"t": "s", "v": rng.choice(["x", "é"])}])()
                 d[k] = {"t": "dict", "v": sub}
             elif r < 0.45:
                 t = rng.choice(["i8", "i64", "b", "i64", "i32"])
@@ -1204,7 +1201,7 @@ def emit_wd(case, out):
     steps = E.lst(list(zip(case["dicts"], case["overwrite"])),
                   lambda p: "(%s, %s)" % (E.lst(list(p[0].items()), lambda kv: "(%s, %s)" % (zstr(kv[0]), e_item(kv[1]))), E.b(p[1])))
     outs = E.lst(range(len(case["dicts"])), lambda i: "(%s, %s)" % (E.b(out["writes"][i] is not None), "None" if out["dumps"][i] is None else "(Some %s)" % e_dump(out["dumps"][i])))
-    return "agree_wd true %s [] %s %s" % (zstr(case["group"]), steps, outs)
+    return "agree_wd VCur %s [] %s %s" % (zstr(case["group"]), steps, outs)
 _EMIT["wd"] = emit_wd
 
 def _leaves(d, pre=""):
